@@ -674,10 +674,17 @@ def deep_clone(value: Any) -> Any:
 
     # For lists, check if they contain PropertyTreeNode objects
     if isinstance(value, list):
-        if value and hasattr(value[0], "propertySet"):
-            # This is a list of PropertyTreeNode objects (like tasks in depends)
-            # Do a shallow copy to preserve object identity
-            return list(value)
+
+        def refers_to_node(item: Any) -> bool:
+            if isinstance(item, dict):
+                return any(hasattr(v, "propertySet") for v in item.values())
+            return hasattr(item, "propertySet")
+
+        if any(refers_to_node(item) for item in value):
+            # This is a list of PropertyTreeNode objects (like tasks in depends) or of
+            # dependency records that point to one ({"task": ..., "gapduration": ...}).
+            # Copy the list and the records, but keep the identity of the nodes.
+            return [dict(item) if isinstance(item, dict) else item for item in value]
         else:
             # Regular list, deep copy
             return copy.deepcopy(value)
